@@ -2,6 +2,7 @@
 //! executed, and what makes a run non-trivial for the evidence.
 
 use crate::monitors::access::AccessMonitor;
+use crate::monitors::apps::{AppCallMonitor, HoldMonitor};
 use crate::monitors::dp::{dp_apps, BringupMonitor, CycleMonitor, FcbMonitor, ImageMonitor, LivenessMonitor};
 use crate::monitors::ring::RingMonitor;
 use crate::rng::Fnv;
@@ -10,7 +11,7 @@ use crate::world::{Monitor, Stats, Violation, World};
 use serde::{Deserialize, Serialize};
 use std::collections::BTreeMap;
 
-pub const CLAIMED: [&str; 7] = ["C01", "C02", "C03", "C04", "C07", "C08", "C14"];
+pub const CLAIMED: [&str; 10] = ["C01", "C02", "C03", "C04", "C06", "C07", "C08", "C13", "C14", "C15"];
 
 #[derive(Serialize, Deserialize, Clone, Debug, Default)]
 pub struct RunResult {
@@ -54,6 +55,18 @@ pub fn build_monitors(sc: &Scenario, w: &World) -> Vec<Box<dyn Monitor>> {
         "C02" => {
             m.push(Box::new(RingMonitor::new("C02", w, o.quiet_from_us, o.bound_us, o.stable_us, false)));
         }
+        "C06" => {
+            m.push(Box::new(RingMonitor::new("C06", w, o.quiet_from_us, o.bound_us, o.stable_us, true)));
+        }
+        "C13" => {
+            m.push(Box::new(HoldMonitor::new("C13", w, o.quiet_from_us)));
+            m.push(Box::new(RingMonitor::new("C13", w, o.quiet_from_us, o.bound_us, o.stable_us, false).silent()));
+        }
+        "C15" => {
+            m.push(Box::new(AppCallMonitor::new("C15", w)));
+            m.push(Box::new(HoldMonitor::new("C15", w, o.quiet_from_us).only_hold_time()));
+            m.push(Box::new(RingMonitor::new("C15", w, o.quiet_from_us, o.bound_us, o.stable_us, false).silent()));
+        }
         "C03" => {
             for d in dp_apps(w) {
                 m.push(Box::new(BringupMonitor::new("C03", w, d)));
@@ -88,6 +101,9 @@ pub fn nontrivial(check: &str, s: &Stats) -> bool {
     match check {
         "C01" => s.get("access.tokens") >= 20 && s.get("access.distinct_token_senders") >= 2,
         "C02" => s.get("ring.converged") >= 1 && s.get("ring.tokens_in_stable") >= 10,
+        "C06" => s.get("ring.converged") >= 1 && faults_fired(s) >= 1,
+        "C13" => s.get("hold.requests_checked_against_hold_time") >= 5 && s.get("hold.rotations_checked") >= 5,
+        "C15" => s.get("apps.requests_sent") >= 10 && s.get("apps.round_robin_steps_checked") >= 10,
         "C03" => s.get("dp.bringups_completed") >= 1 && s.get("dp.requests.data_exchange") >= 5 && faults_fired(s) >= 1,
         "C04" => s.get("image.input_updates") >= 5 && s.get("image.dx_requests_checked") >= 5,
         "C07" => s.get("liveness.verdicts") >= 1 && faults_fired(s) >= 1,
@@ -188,6 +204,8 @@ pub fn default_runs(check: &str, tier: Tier) -> u64 {
         "C01" => (1500, 40_000),
         "C02" => (1200, 20_000),
         "C03" | "C04" | "C08" | "C14" => (3000, 150_000),
+        "C06" => (1500, 30_000),
+        "C13" | "C15" => (1500, 30_000),
         "C07" => (2500, 80_000),
         _ => (1000, 20_000),
     };
@@ -204,6 +222,9 @@ pub fn hang_is_violation(check: &str) -> bool {
 pub fn probe_names(check: &str) -> Vec<&'static str> {
     match check {
         "C01" | "C02" => vec!["probe.more_than_one_telegram_in_buffer", "probe.self_offline_address_collision"],
+        "C06" => vec!["probe.self_offline_address_collision", "probe.more_than_one_telegram_in_buffer"],
+        "C13" => vec!["probe.hold_time_already_over_at_first_cycle"],
+        "C15" => vec!["probe.request_abandoned_with_token_loss", "probe.all_of_several_applications_declined_in_one_visit"],
         "C03" => vec!["probe.set_prm_after_validation_started", "probe.more_than_one_telegram_in_buffer"],
         "C04" => vec!["probe.sc_for_inputless_peripheral", "probe.more_than_one_telegram_in_buffer"],
         "C08" => vec!["probe.retry_limit_reached_without_any_reply"],
@@ -217,6 +238,9 @@ pub fn rule_of(check: &str) -> String {
     let nt = match check {
         "C01" => "Non-trivial = at least 20 token telegrams were sent by at least 2 different real stations (a ring existed and circulated).",
         "C02" => "Non-trivial = agreement was reached and at least 10 token passes were checked for order during the stability window.",
+        "C06" => "Non-trivial = at least one injected fault fired and the remaining stations reached agreement again afterwards.",
+        "C13" => "Non-trivial = at least 5 application requests were checked against the hold time and at least 5 rotations against the rotation bound.",
+        "C15" => "Non-trivial = at least 10 application requests were sent and at least 10 round-robin steps were checked.",
         "C03" => "Non-trivial = at least one bring-up reached the ready state, at least 5 Data_Exchange requests were judged and at least one injected fault fired.",
         "C04" => "Non-trivial = at least 5 Data_Exchange requests were compared with the shadow output image and at least 5 input-image updates were checked.",
         "C07" => "Non-trivial = at least one injected fault fired and the liveness verdict was reached (all healthy peripherals judged at or before the deadline).",
